@@ -36,10 +36,12 @@ TOL = 1.0e-3  # the sizing tolerance the properties quote
 WEIGHTS = {
     # op kind -> weight per property family
     "C13": {"find": 3, "redesign": 3, "abort_find": 3, "other": 2, "nominal": 2, "sim": 5, "sim_hourly": 2, "sim_out": 2,
-            "size": 2, "abort_size": 2, "regen": 1, "report": 1, "tick": 1, "rebuild": 2, "pristine": 0.6, "reconf": 3, "ghe_new": 1.5},
+            "size": 2, "abort_size": 2, "abort_sim": 2, "regen": 1, "report": 1, "tick": 1, "rebuild": 2, "pristine": 0.6, "reconf": 3,
+            "ghe_new": 1.5, "poke": 1.5, "other_leap": 0.5},
     "C12": {"find": 1, "redesign": 1, "abort_find": 1, "other": 1.5, "nominal": 1, "sim": 3, "size": 2, "abort_size": 1, "regen": 1,
-            "report": 4, "tick": 1, "rebuild": 0},
-    "C19": {"find": 1, "redesign": 1, "sim": 2, "size": 1, "regen": 1, "report": 5, "tick": 2, "rebuild": 0, "other": 1.5},
+            "report": 4, "tick": 1, "rebuild": 0, "poke": 2, "abort_sim": 1},
+    "C19": {"find": 1, "redesign": 1, "sim": 2, "size": 1, "regen": 1, "report": 5, "tick": 2, "rebuild": 0, "other": 1.5, "poke": 1.5,
+            "other_leap": 0.7},
     "C01": {"find": 2, "redesign": 2, "abort_find": 2, "other": 1, "nominal": 2, "rebuild": 2, "tick": 0, "reconf": 2},
     "C02": {"find": 2, "redesign": 1, "abort_find": 1, "nominal": 1, "rebuild": 1, "reconf": 1},
     "C05": {"find": 2, "redesign": 1, "abort_find": 1, "nominal": 1, "rebuild": 1, "ghe_new": 2, "size": 1, "regen": 1, "sim": 1},
@@ -98,15 +100,24 @@ def draw_plan(rng: random.Random, prop: str, tier: str = "quick", methods=None, 
                         "redesign": rng.random() < 0.5})
             ops.append({"op": "find", "mgr": "A"})
         elif k == "abort_size":
-            ops.append({"op": "abort_size", "mgr": "A", "k": rng.randint(1, 8)})
+            site = rng.choice(["simulate", "sts"])
+            ops.append({"op": "abort_size", "mgr": "A", "site": site, "k": rng.randint(1, 8) if site == "simulate" else rng.randint(1, 3000)})
             ops.append({"op": "size", "mgr": "A"})
+        elif k == "abort_sim":
+            # simulate() interrupted inside the short-time-step computation, then the very same call again
+            hh = gen.r3(rng.uniform(lo, hi))
+            ops.append({"op": "abort_sim", "mgr": "A", "method": "HYBRID", "H": hh, "k": rng.randint(1, 900)})
+            ops.append({"op": "sim", "mgr": "A", "method": "HYBRID", "H": hh})
+        elif k == "poke":
+            ops.append({"op": "poke", "mgr": "A", "setter": rng.choice(gen.SETTERS + ["borehole", "borehole", "design"])})
         elif k == "nominal":
             ops.append({"op": "nominal", "mgr": "A", "height": gen.r3(rng.uniform(20.0, 400.0))})
         elif k == "tick":
             ops.append({"op": "tick", "dt": rng.choice([1.0, 3600.0, 86400.0 * 40, -5.0, -86400.0, 1e9])})
         elif k == "report":
             rep = {"op": "report", "mgr": "A", "dir": f"r{len(ops)}", "suffix": rng.choice(["", "", "_x"]),
-                   "other_prepares_in_between": rng.random() < 0.6}
+                   "other_prepares_in_between": rng.random() < 0.6, "rewrite": rng.random() < 0.35,
+                   "retry_write_only": rng.random() < 0.5}
             if rng.random() < 0.3:
                 # first attempt hits an I/O error somewhere in the six files, then the report is simply requested again
                 kind = rng.choice(["open_w", "write", "close", "mkdir"])
@@ -132,15 +143,21 @@ def draw_plan(rng: random.Random, prop: str, tier: str = "quick", methods=None, 
                 burst = rng.choice([["size", "regen", "size"], ["sim", "size", "regen", "size", "sim"],
                                     ["size", "sim", "regen", "sim", "size"], ["abort_size", "regen", "size"]])
             else:
-                burst = [rng.choice(["sim", "sim", "size", "regen", "sim_hourly" if hourly_ok else "sim", "abort_size"])
+                burst = [rng.choice(["sim", "sim", "size", "regen", "sim_hourly" if hourly_ok else "sim", "abort_size", "abort_sim"])
                          for _ in range(rng.randint(2, 5))]
             for kk in burst:
                 if kk == "sim":
                     ops.append({"op": "sim", "mgr": "G", "method": "HYBRID", "H": gen.r3(rng.uniform(lo, hi))})
                 elif kk == "sim_hourly":
                     ops.append({"op": "sim", "mgr": "G", "method": "HOURLY", "H": gen.r3(rng.uniform(lo, hi))})
+                elif kk == "abort_sim":
+                    hh = gen.r3(rng.uniform(lo, hi))
+                    ops.append({"op": "abort_sim", "mgr": "G", "method": "HYBRID", "H": hh, "k": rng.randint(1, 900)})
+                    ops.append({"op": "sim", "mgr": "G", "method": "HYBRID", "H": hh})
                 elif kk == "abort_size":
-                    ops.append({"op": "abort_size", "mgr": "G", "k": rng.randint(1, 8)})
+                    site = rng.choice(["simulate", "sts"])
+                    ops.append({"op": "abort_size", "mgr": "G", "site": site,
+                                "k": rng.randint(1, 8) if site == "simulate" else rng.randint(1, 3000)})
                     ops.append({"op": "size", "mgr": "G"})
                 else:
                     ops.append({"op": kk, "mgr": "G"})
@@ -153,7 +170,22 @@ def draw_plan(rng: random.Random, prop: str, tier: str = "quick", methods=None, 
             ops.append({"op": "other", "cfg_key": rng.choice(["cfg2", "variant", "variant"])})
         else:
             ops.append({"op": k, "mgr": "A"})
-    if prop == "C13" and rng.random() < 0.2:
+    if prop in ("C13", "C02") and rng.random() < 0.1:
+        # fail-then-retry: a capped search that ends in "Search failed." (loads far too large, policy off), then only the
+        # loads are replaced on the same manager by ones that still need more boreholes than the cap allows
+        m2 = rng.choice(["NEARSQUARE", "RECTANGLE", "BIRECTANGLE", "BIRECTANGLE", "BIZONEDRECTANGLE"])
+        cfg = gen.draw_cfg(rng, methods=[m2], target="huge", months=12)
+        cap = rng.randint(3, 12)
+        cfg["simulation"]["max_boreholes"] = cap
+        cfg["simulation"]["continue_if_design_unmet"] = False
+        variant = copy.deepcopy(cfg)
+        variant["loads"]["amp"] = gen.amp_for(cfg, cap * rng.uniform(1.1, 2.5), cfg["simulation"]["max_height"])
+        variant["variant_of"] = ["loads"]
+        ops = [{"op": "build", "mgr": "A", "order": order, "decoys": [], "cfg_key": "base"}, {"op": "find", "mgr": "A"},
+               {"op": "reconf", "mgr": "A", "to": "variant"}]
+        if rng.random() < 0.5:
+            ops.append({"op": "redesign", "mgr": "A"})
+    elif prop == "C13" and rng.random() < 0.2:
         # leak probe: a near-identical design (exactly one section group differs) runs first in this process - on this
         # manager or on another one - and the base design is then compared with a pristine interpreter's
         variant = make_variant(rng, cfg, k=1)
@@ -168,7 +200,8 @@ def draw_plan(rng: random.Random, prop: str, tier: str = "quick", methods=None, 
         ops.append({"op": "find", "mgr": "A"})
         ops.append({"op": "pristine", "mgr": "A"})
     if prop in ("C12", "C19") and not any(o["op"] == "report" for o in ops):
-        ops.append({"op": "report", "mgr": "A", "dir": "rend", "suffix": "", "other_prepares_in_between": rng.random() < 0.6})
+        ops.append({"op": "report", "mgr": "A", "dir": "rend", "suffix": "", "other_prepares_in_between": rng.random() < 0.6,
+                    "rewrite": rng.random() < 0.35})
     if prop == "C20" and not any(o["op"] == "twin" for o in ops):
         ops.append({"op": "twin", "mgr": "A"})
     return {"engine": "E1", "property": prop, "cfg": cfg, "cfg2": cfg2, "variant": variant, "ops": ops,
@@ -860,7 +893,7 @@ def op_abort_size(ctx: Ctx, i, op):
         ctx.bump("op_skipped_no_design")
         ctx.log.add("abort_size", None, "skipped")
         return
-    ABORTS.arm("simulate", op["k"])
+    ABORTS.arm(op.get("site", "simulate"), op["k"])
     fired = False
     try:
         with Quiet():
@@ -872,8 +905,81 @@ def op_abort_size(ctx: Ctx, i, op):
     finally:
         ABORTS.disarm()
     _touch(ctx, name)
-    ctx.bump("fault:abort_inside_size" if fired else "abort_not_reached")
+    ctx.bump(f"fault:abort_inside_size_at_{op.get('site', 'simulate')}" if fired else "abort_not_reached")
     ctx.log.add("abort_size", op["k"], "aborted" if fired else "completed")
+
+
+def op_abort_sim(ctx: Ctx, i, op):
+    """simulate() at height H interrupted at the k-th tridiagonal solve of the short-time-step computation."""
+    from ghedesigner.enums import TimestepType
+
+    name = op["mgr"]
+    g = _ghe_of(ctx, name)
+    if g is None:
+        ctx.bump("op_skipped_no_design")
+        ctx.log.add("abort_sim", None, "skipped")
+        return
+    g.bhe.b.H = op["H"]
+    ABORTS.arm("sts", op["k"])
+    fired = False
+    try:
+        with Quiet():
+            g.simulate(method=TimestepType[op["method"]])
+    except seams.InjectedAbort:
+        fired = True
+    except Exception:  # noqa: BLE001
+        pass
+    finally:
+        ABORTS.disarm()
+    _touch(ctx, name)
+    ctx.bump("fault:abort_inside_simulate_at_sts" if fired else "abort_not_reached")
+    ctx.log.add("abort_sim", [op["H"], op["k"]], "aborted" if fired else "completed")
+
+
+def op_poke(ctx: Ctx, i, op):
+    """A setter is called again with the *same* values after a search (a parameter-study loop configuring the next case
+    before saving the previous one, with identical numbers): nothing observable may change."""
+    name = op["mgr"]
+    mgr = ctx.mgrs.get(name)
+    st = ctx.state.get(name)
+    if mgr is None or st is None:
+        return
+    cfg = st["cfg"]
+    with Quiet():
+        if op["setter"] == "design":
+            pass  # set_design alone would rebuild the design object; it is exercised by `redesign`
+        elif op["setter"] == "borehole" and st.get("nominal_override"):
+            mgr.set_borehole(height=st["nominal_override"], buried_depth=cfg["borehole"]["buried_depth"],
+                             diameter=cfg["borehole"]["diameter"])
+        else:
+            gen._call_setter(mgr, op["setter"], cfg, gen._LOADS_CACHE)
+    ctx.bump("probe:setter_called_again_after_search")
+    ctx.log.add("poke", op["setter"], None)
+
+
+def op_other_leap(ctx: Ctx, i, op):
+    """An unrelated design through the public design class with a leap load year (8784 loads): only a disturbance."""
+    from ghedesigner.design import DesignNearSquare
+    from ghedesigner.enums import FlowConfigType, TimestepType
+    from ghedesigner.geometry import GeometricConstraintsNearSquare
+
+    cfg2 = plan_cfg(ctx.plan, "cfg2")
+    out = "ok"
+    try:
+        with Quiet():
+            m = gen.build_manager(cfg2, set_design=False)
+            loads = gen.expand_loads(cfg2["loads"])
+            loads = loads + loads[:24]
+            d = DesignNearSquare(0.3, m._borehole, m.pipe_type, m._fluid, m._pipe, m._grout, m._soil, m._simulation_parameters,
+                                 GeometricConstraintsNearSquare(5.0, 12.0), loads, method=TimestepType.HYBRID,
+                                 flow_type=FlowConfigType.BOREHOLE, load_years=[2020])
+            d.find_design()
+    except seams.InjectedAbort:
+        raise
+    except Exception as e:  # noqa: BLE001
+        out = f"raised {type(e).__name__}"
+    ctx.bump("probe:leap_year_design_ran_in_between")
+    ctx.log.add("other_leap", None, out)
 
 
 def op_regen(ctx: Ctx, i, op):
@@ -988,6 +1094,7 @@ def op_report(ctx: Ctx, i, op):
     cfg = st["cfg"]
     outdir = ctx.root / op["dir"]
     reads_before = len(ctx.clock.reads)
+    shim = seams.FileShim(str(ctx.root), [])
     if op.get("io_fault_first_attempt"):
         shim = seams.FileShim(str(ctx.root), [op["io_fault_first_attempt"]])
         try:
@@ -1000,9 +1107,13 @@ def op_report(ctx: Ctx, i, op):
             ctx.bump(f"report_raised:{type(e).__name__}")
         for kind, base, n in shim.fired:
             ctx.bump(f"fault:report_io_{kind}")
+    first_failed = bool(op.get("io_fault_first_attempt")) and bool(shim.fired)
     try:
         with Quiet():
-            mgr.prepare_results("proj", "note", "auth", "iter")
+            if not (first_failed and op.get("retry_write_only")):
+                mgr.prepare_results("proj", "note", "auth", "iter")
+            else:
+                ctx.bump("probe:write_retried_without_new_prepare")
             if op.get("other_prepares_in_between") and _ghe_of(ctx, "B") is not None:
                 # a batch script that prepares all its cases first and writes the reports afterwards
                 ctx.mgrs["B"].prepare_results("projB", "noteB", "authB", "iterB")
@@ -1015,33 +1126,47 @@ def op_report(ctx: Ctx, i, op):
         if ctx.prop in ("C12", "C19"):
             ctx.violation(Violation(ctx.prop, "report_raised", f"{type(e).__name__}: {e} after {ctx.shape[:-1]}", site="report"), i)
         return
-    files = _read_outputs(outdir)
-    ctx.log.add("report", op.get("suffix"), _normalise_outputs(files))
     oc = outcome_class(cfg, st["last"])
     ctx.bump(f"report_after:{oc}")
-    ctx.bump("reports")
-    sfx = op.get("suffix", "")
-    f = lambda n: files[n.replace(".", sfx + ".", 1) if sfx else n]  # noqa: E731
-    if ctx.prop == "C12":
-        _oracle_c12(ctx, i, mgr, cfg, f, oc)
-    elif ctx.prop == "C19":
-        _oracle_c19(ctx, i, mgr, cfg, f, oc)
-    elif ctx.prop == "C13" and not st.get("touched"):
-        # byte equality with the files a fresh manager writes (clock-derived fields removed)
-        rm = ctx.ref.fresh_mgr(cfg)
-        key = digest(cfg)
-        if key not in ctx.ref.files:
-            rdir = ctx.root / f"ref_{key[:10]}"
+
+    def check(files, sfx):
+        ctx.log.add("report", sfx, _normalise_outputs(files))
+        ctx.bump("reports")
+        f = lambda n: files[n.replace(".", sfx + ".", 1) if sfx else n]  # noqa: E731
+        if ctx.prop == "C12":
+            _oracle_c12(ctx, i, mgr, cfg, f, oc)
+        elif ctx.prop == "C19":
+            _oracle_c19(ctx, i, mgr, cfg, f, oc)
+        elif ctx.prop == "C13" and not st.get("touched"):
+            # equality with the files a fresh manager writes (clock-derived fields removed, numbers at 1e-9)
+            rm = ctx.ref.fresh_mgr(cfg)
+            key = digest(cfg)
+            if key not in ctx.ref.files:
+                rdir = ctx.root / f"ref_{key[:10]}"
+                with Quiet():
+                    rm.prepare_results("proj", "note", "auth", "iter")
+                    rm.write_output_files(rdir, "")
+                ctx.ref.files[key] = _normalise_outputs(_read_outputs(rdir))
+            got = _normalise_outputs(files)
+            want = ctx.ref.files[key]
+            if not close(got, want)[0]:
+                diff = sorted(k for k in set(got) | set(want) if not close(got.get(k), want.get(k))[0])
+                ctx.violation(Violation("C13", "output_files_differ_from_fresh", f"after {ctx.shape[:-1]}: {diff} differ",
+                                        site="report"), i, {"files": ",".join(diff)})
+
+    try:
+        check(_read_outputs(outdir), op.get("suffix", ""))
+        if op.get("rewrite"):
+            # the same prepared result set written a second time (other directory / suffix), without a new prepare
+            out2 = ctx.root / (op["dir"] + "_again")
+            sfx2 = "_x" if not op.get("suffix") else ""
             with Quiet():
-                rm.prepare_results("proj", "note", "auth", "iter")
-                rm.write_output_files(rdir, "")
-            ctx.ref.files[key] = _normalise_outputs(_read_outputs(rdir))
-        got = _normalise_outputs(files)
-        want = ctx.ref.files[key]
-        if not close(got, want)[0]:
-            diff = sorted(k for k in set(got) | set(want) if not close(got.get(k), want.get(k))[0])
-            ctx.violation(Violation("C13", "output_files_differ_from_fresh", f"after {ctx.shape[:-1]}: {diff} differ",
-                                    site="report"), i, {"files": ",".join(diff)})
+                mgr.write_output_files(out2, sfx2)
+            ctx.bump("probe:prepared_results_written_twice")
+            check(_read_outputs(out2), sfx2)
+    except (KeyError, IndexError, ValueError, StopIteration) as e:
+        # a table that cannot even be parsed / is missing
+        ctx.violation(Violation(ctx.prop, "report_unreadable", f"{type(e).__name__}: {e} after {ctx.shape[:-1]}", site="report"), i)
 
 
 def _oracle_c12(ctx: Ctx, i, mgr, cfg, f, oc):
@@ -1299,7 +1424,7 @@ def op_twin(ctx: Ctx, i, op):
 
 
 OPS = {"build": op_build, "find": op_find, "redesign": op_redesign, "nominal": op_nominal, "abort_find": op_abort_find,
-       "other": op_other, "sim": op_sim, "size": op_size, "abort_size": op_abort_size, "pristine": op_pristine, "reconf": op_reconf, "ghe_new": op_ghe_new, "regen": op_regen, "tick": op_tick, "report": op_report,
+       "other": op_other, "sim": op_sim, "size": op_size, "abort_size": op_abort_size, "pristine": op_pristine, "reconf": op_reconf, "ghe_new": op_ghe_new, "abort_sim": op_abort_sim, "poke": op_poke, "other_leap": op_other_leap, "regen": op_regen, "tick": op_tick, "report": op_report,
        "twin": op_twin}
 
 
